@@ -194,7 +194,19 @@ func (w *world) rewrite(rt *rapid.T, r *request, kind string, gc genCfg) (labels
 		r.reps = insertAt(r.reps, rapid.IntRange(0, len(r.reps)).Draw(rt, "repupd-pos"), o)
 		return []string{"rewrite:leaf-update->replace"}, true
 	case rwDup:
-		// (5) duplicate an identical update
+		// (5) duplicate an identical update; or an identical LEAF replace (replacing a leaf twice with the
+		// same value is the same intent as doing it once)
+		var leafReps []int
+		for i, o := range r.reps {
+			if o.leaf >= 0 {
+				leafReps = append(leafReps, i)
+			}
+		}
+		if len(leafReps) > 0 && (len(r.upds) == 0 || chance(rt, "dup-leaf-replace", 1)) {
+			i := pick(rt, leafReps, "dup-rep")
+			r.reps = insertAt(r.reps, rapid.IntRange(0, len(r.reps)).Draw(rt, "dup-rep-pos"), r.reps[i].clone())
+			return []string{"rewrite:duplicate-leaf-replace"}, true
+		}
 		if len(r.upds) == 0 {
 			return nil, false
 		}
